@@ -497,7 +497,7 @@ class MySQLParser(SQLParser):
         if select.offset is not None:
             raise ParsingException(f'OFFSET already specified for this query')
         ensure_select_keyword_order(select, 'OFFSET')
-        if not isinstance(p.constant.value, int):
+        if type(p.constant.value) is not int:
             raise ParsingException(f'OFFSET must be an integer value, got: {p.constant.value}')
 
         select.offset = p.constant
@@ -507,7 +507,7 @@ class MySQLParser(SQLParser):
     def select(self, p):
         select = p.select
         ensure_select_keyword_order(select, 'LIMIT')
-        if not isinstance(p.constant0.value, int) or not isinstance(p.constant1.value, int):
+        if type(p.constant0.value) is not int or type(p.constant1.value) is not int:
             raise ParsingException(f'LIMIT must have integer arguments, got: {p.constant0.value}, {p.constant1.value}')
         select.offset = p.constant0
         select.limit = p.constant1
@@ -517,7 +517,7 @@ class MySQLParser(SQLParser):
     def select(self, p):
         select = p.select
         ensure_select_keyword_order(select, 'LIMIT')
-        if not isinstance(p.constant.value, int):
+        if type(p.constant.value) is not int:
             raise ParsingException(f'LIMIT must be an integer value, got: {p.constant.value}')
         select.limit = p.constant
         return select
